@@ -119,7 +119,20 @@ func loadWorld(repo string, patterns []string, trustedDir string) (*World, error
 
 func (w *World) addContractFile(cf *ContractFile) {
 	if cf.PkgPath != "" {
-		w.cfiles[cf.PkgPath] = cf
+		if old, ok := w.cfiles[cf.PkgPath]; ok {
+			// several contract files per package: merge
+			old.Funcs = append(old.Funcs, cf.Funcs...)
+			old.Specs = append(old.Specs, cf.Specs...)
+			old.Lemmas = append(old.Lemmas, cf.Lemmas...)
+			old.Ghosts = append(old.Ghosts, cf.Ghosts...)
+			old.Guarded = append(old.Guarded, cf.Guarded...)
+			old.WritersOf = append(old.WritersOf, cf.WritersOf...)
+			old.Globals = append(old.Globals, cf.Globals...)
+			old.Axioms = append(old.Axioms, cf.Axioms...)
+			old.Immutable = append(old.Immutable, cf.Immutable...)
+		} else {
+			w.cfiles[cf.PkgPath] = cf
+		}
 	}
 	for _, f := range cf.Funcs {
 		switch f.Kind {
